@@ -272,9 +272,9 @@ def invoke_contract(ex, st, c, fs, bound, node, label=None):
     cs.heap = st.heap
     cs.env["result"] = res
     for nm, e in c.ensures.items():
-        st.assume(zbool(sub.spec_eval(e, cs)))
+        st.assume(zbool(sub.spec_eval(e, cs)), tag=f"call:{c.short}/{nm}")
     for nm, e in c.assumes.items():
-        st.assume(zbool(sub.spec_eval(e, cs)))
+        st.assume(zbool(sub.spec_eval(e, cs)), tag=f"call:{c.short}/{nm}")
     # determinism of pure callees: result is a function of the arguments
     if c.pure and res is not None and ex.ctx.options.get("valfn", True):
         add_valfn(ex, st, c, bound, res)
